@@ -305,6 +305,11 @@ func (v *vc) guardAccess(fr *frame, st *state, in *ssa.FieldAddr, ref string, st
 	if !has {
 		return
 	}
+	if owner := ownerOf(in.X); owner != nil {
+		// the object is stored in an `owned` field: it is protected by its owner's mutex
+		ref = v.val(fr, st, owner)
+		v.trusted["assumed: an object stored in an `owned` field is protected by the owner's mutex and reached only through the owner"] = true
+	}
 	write := addrIsWritten(in, map[ssa.Value]bool{})
 	kind := "read"
 	if write {
